@@ -12,6 +12,7 @@ A property module provides
     coverage(tier, result) -> dict for the evidence file
 """
 import hashlib
+import re
 import json
 import multiprocessing
 import os
@@ -279,9 +280,18 @@ def finish(mod, tier, result, t0, coverage, assumptions=None):
         sig = {'clause': key[0], 'cls': key[1], 'shape': shape(case)}
         match = None
         for k in listed:
-            if k['clause'] == sig['clause'] and k['cls'] == sig['cls'] and k.get('shape', sig['shape']) == sig['shape']:
-                match = k
-                break
+            if k.get('clause', sig['clause']) != sig['clause']:
+                continue
+            if 'cls' in k and k['cls'] != sig['cls']:
+                continue
+            if 'cls_regex' in k and not re.search(k['cls_regex'], sig['cls']):
+                continue
+            if 'shape' in k and k['shape'] != sig['shape']:
+                continue
+            if 'shape_regex' in k and not re.search(k['shape_regex'], sig['shape']):
+                continue
+            match = k
+            break
         if match is not None:
             seen_known[match['id']] = match
             continue
@@ -297,7 +307,7 @@ def finish(mod, tier, result, t0, coverage, assumptions=None):
     for kid in sorted(seen_known):
         print('KNOWN-FINDING: property=%s %s' % (prop, seen_known[kid]['what']))
     rc = 0
-    rdir = os.path.join(VERIF, 'replays', prop)
+    rdir = os.path.join(os.environ.get('VERIF_REPLAY_DIR', os.path.join(VERIF, 'replays')), prop)
     for sig, case, msg in new:
         os.makedirs(rdir, exist_ok=True)
         body = {'property': prop, 'signature': sig, 'case': case, 'message': msg}
@@ -327,9 +337,10 @@ def finish(mod, tier, result, t0, coverage, assumptions=None):
         'wall_s': round(env.real_time() - t0, 2),
         'violations': len(new),
     }
-    os.makedirs(os.path.join(VERIF, 'evidence'), exist_ok=True)
-    with open(os.path.join(VERIF, 'evidence', prop + '.json'), 'w') as f:
-        json.dump(ev, f, indent=1, sort_keys=True, default=str)
+    if not os.environ.get('VERIF_NO_EVIDENCE'):
+        os.makedirs(os.path.join(VERIF, 'evidence'), exist_ok=True)
+        with open(os.path.join(VERIF, 'evidence', prop + '.json'), 'w') as f:
+            json.dump(ev, f, indent=1, sort_keys=True, default=str)
     print('%s tier=%s level=%s wall=%.1fs %s violations=%d known=%d' % (
         prop, tier, mod.LEVEL, ev['wall_s'],
         ' '.join('%s=%s' % (k, cov[k]) for k in ('states', 'transitions', 'traces_validated_against_impl', 'evaluations', 'distinct_nontrivial', 'exhaustive') if k in cov),
